@@ -386,16 +386,19 @@ def run(ctx):
     if not loops:
         # an ordering comparison terminates for every end; nothing to show
         ctx.ok('R-RANGEEND', 'loop', wtr, 'no equality-terminated loop')
+    from .. import paths as _paths
     for lp in loops:
+        env = _paths.dominating_env(tr_, lp)
         for side in (lp.test.left, lp.test.comparators[0]):
-            names = [n.id for n in ast.walk(side) if isinstance(n, ast.Name)]
-            normed = []
-            for st in tr_.body:
-                if st is lp:
-                    break
-                if isinstance(st, ast.Assign) and isinstance(st.value, ast.Call) and dotted(st.value.func) == 'timeadd':
-                    normed += [n.id for t in st.targets for n in ast.walk(t) if isinstance(n, ast.Name)]
-            missing = [n for n in names if n not in normed]
+            # with temporaries substituted, every component of the compared value is (an element of) timeadd(x, (0, 0), eod)
+            x = _paths.subst(side, env)
+            comps = x.elts if isinstance(x, ast.Tuple) else [x]
+            missing = []
+            for c_ in comps:
+                while isinstance(c_, ast.Subscript) and isinstance(c_.slice, ast.Constant):
+                    c_ = c_.value
+                if not (isinstance(c_, ast.Call) and dotted(c_.func) == 'timeadd' and len(c_.args) >= 2 and norm(c_.args[1]) == '(0, 0)'):
+                    missing.append(norm(c_)[:30])
             if missing:
                 ctx.violation(Finding('R-RANGEEND', tm.relpath, 'timerange', lp, 'the loop ends only when %s equals the other tuple exactly, but %s is compared as given (not normalised with '
                                       'timeadd): an end of (date, eod) - which the one3d-family readers pass for files ending at the last step of a day - is never reached and the '
